@@ -488,6 +488,53 @@ fn output_then_end() -> Vec<Case> {
     v
 }
 
+/// more input than any buffer holds at once: a loop reads 130 lines of 100 characters through INT 21h/01 (and,
+/// second program, through INT 21h/0Ah) and echoes what it got; every line must be consumed whole, wherever a
+/// buffer boundary (4 096, 8 192, 65 536 bytes) falls inside it
+fn long_input() -> Vec<Case> {
+    let mut v = Vec::new();
+    let n = 130usize;
+    let mut lines: Vec<String> = Vec::new();
+    for k in 0..n {
+        let first = (b'A' + (k % 26) as u8) as char;
+        let rest: String = ".,:-_".chars().cycle().skip(k % 5).take(99).collect();
+        lines.push(format!("{}{}", first, rest));
+    }
+    let raw: String = lines.iter().map(|l| format!("{}\n", l)).collect();
+    // INT 21h/01 + echo
+    let code = vec![
+        label("start"),
+        mov(r16("cx"), imm(n as i32)),
+        label("again"),
+        mov(r8("ah"), imm(1)),
+        int(0x21),
+        mov(r8("dl"), r8("al")),
+        mov(r8("ah"), imm(2)),
+        int(0x21),
+        jmp("loop", "again"),
+        print(PrintKind::Reg),
+    ];
+    v.push(Case { site: "long input".into(), prog: Program { data: vec![], code }, stdin_lines: lines.clone(), stdin_raw: raw.clone(), note: format!("{} lines of 100 characters read by INT 21h/01 in a loop", n) });
+    // INT 21h/0Ah into a 4-byte buffer + echo of the first stored character
+    let code = vec![
+        label("start"),
+        mov(r16("cx"), imm(n as i32)),
+        label("again"),
+        mov(r16("dx"), imm(0x0300)),
+        mov(direct(W::B, 0x0300), imm(4)),
+        mov(r8("ah"), imm(0x0A)),
+        int(0x21),
+        mov(r8("dl"), direct(W::B, 0x0302)),
+        mov(r8("ah"), imm(2)),
+        int(0x21),
+        jmp("loop", "again"),
+        print(PrintKind::Reg),
+        print(PrintKind::MemRange(0x0300, 0x0307)),
+    ];
+    v.push(Case { site: "long input".into(), prog: Program { data: vec![], code }, stdin_lines: lines, stdin_raw: raw, note: format!("{} lines of 100 characters read by INT 21h/0Ah in a loop", n) });
+    v
+}
+
 pub fn run(tier: &Tier) -> i32 {
     let rep_o = Reporter::new("C18", tier.name());
     let c_o = Counters::default();
@@ -523,10 +570,12 @@ pub fn run(tier: &Tier) -> i32 {
     add("unsupported_ah", unsupported(), &mut cases, &mut groups);
     add("service_pairs", pairs(tier.thorough), &mut cases, &mut groups);
     add("output_then_end", output_then_end(), &mut cases, &mut groups);
+    add("long_input", long_input(), &mut cases, &mut groups);
     let mb: HashMap<String, Vec<Item>> = HashMap::new();
     let out_bytes = AtomicU64::new(0);
     let unsup = AtomicU64::new(0);
     let dos_mode_used = AtomicU64::new(0);
+    let pieces = AtomicU64::new(0);
     cases.par_iter().for_each(|cs| {
         let src = render(&cs.prog);
         // the output cap must hold 65535 characters plus the dumps
@@ -552,6 +601,19 @@ pub fn run(tier: &Tier) -> i32 {
             }
         }
         c.outcome(&format!("{:?}/{}", rr.stop, if res.is_none() { "conforms" } else { "differs" }));
+        // the same input delivered in pieces (a few bytes at a time with pauses): the content of the standard input
+        // is the same, so the output must be the same byte for byte
+        if res.is_none() && !cs.stdin_raw.is_empty() && (cs.site.contains("ah=01") || cs.site.starts_with("service p") || cs.site == "long input") {
+            let mut o = CliOpts::default();
+            o.stdin_pieces = Some(if cs.stdin_raw.len() > 1000 { (997, 2) } else { (2, 3) });
+            o.timeout_ms = 20_000;
+            let again = run_cli(&src, &cs.stdin_raw, &o);
+            pieces.fetch_add(1, Ordering::Relaxed);
+            c.add_exec(1);
+            if again.stdout != out.stdout || again.abnormal().is_some() {
+                rep.report(Viol { site: cs.site.clone(), field: "input-delivery".into(), vars: vec![], got_val: None, expected: format!("the output of the run whose input arrived at once: {}", clip_text(&out.out(), 500)), got: format!("input delivered in pieces: {}", clip_text(&again.summary(), 700)), case: json!({"src": src, "stdin": cs.stdin_raw, "interpreted": false, "delivery": "in pieces"}), weight: src.len() as u64 });
+            }
+        }
         report_cli(rep, &cs.site, res, &src, &cs.stdin_lines, false, &out, json!({"what": cs.note, "stdin_raw": cs.stdin_raw}));
     });
     // the reading services with a standard input on which every read FAILS (a directory): the run must still end
@@ -592,8 +654,8 @@ pub fn run(tier: &Tier) -> i32 {
     }
     let mut cov = Coverage::default();
     cov.exhaustive = true;
-    cov.rule = "every run is the real binary with a scripted stdin (pipe closed after the script). INT 21h/02: all 256 DL values x 2 prior AL. INT 21h/01: 20 stdin shapes (closed, empty line, lines with white space at either end / of white space only, empty line(s) followed by a line, short, exactly capacity, longer, no trailing newline, two lines, 300 characters, UTF-8) x 2 prior AL, followed by a second read and an echo. INT 21h/0Ah: 5 buffer placements (low, offset wrap at 16 bits, crossing 2^20, ending exactly at 0xFFFFF, header split by the wrap) x capacities {0,1,2,5,16,255} (thorough: all 256) x the stdin shapes, the buffer surrounded by 0xEE markers; plus a line of 1-, 2-, 3- and 4-byte characters cut by every capacity 0..length+1 (the cut falls inside a character). INT 10h/0Ah: AL x CX lattice (thorough: all 256 AL x 15 CX up to 65535). INT 10h/13h: 6 (ES,BP) placements incl. text whose high bytes form well-formed UTF-8, strings crossing 2^20 and BP+i wrapping at 16 bits x DL x CX (thorough: all 256 DL x 12 CX up to 65535). Every AH value 0..255 other than the supported ones for both interrupts, at the first / a middle / the last line. All 25 ordered pairs of services x 5 stdin scripts (thorough: all 125 ordered triples x 5 scripts). After each service the program prints all registers, the flags, the marker window around the buffer, the first 48 and the last 48 bytes of memory; service output is matched byte for byte and every printed field against the reference state. Service output followed directly by whatever ends the run (divide error, unsupported AH of either interrupt, hlt, the end of the program, quit / end of input at a breakpoint prompt, a reading service at end of input), 3 writing services x 8 endings x with / without an earlier print statement: what the service wrote must precede the ending's message. Every distinct program that reads input also runs once with a standard input on which every read fails and must end normally".into();
-    cov.bounds = json!({"groups": groups.iter().map(|(n, k)| json!({"group": n, "runs": k})).collect::<Vec<_>>(), "service_output_bytes_matched": out_bytes.load(Ordering::Relaxed), "unsupported_reports_checked": unsup.load(Ordering::Relaxed), "cases_conforming_only_in_dos_encoding": dos_mode_used.load(Ordering::Relaxed), "programs_run_with_unreadable_stdin": unreadable.load(Ordering::Relaxed), "tier": tier.name()});
+    cov.rule = "every run is the real binary with a scripted stdin (pipe closed after the script). INT 21h/02: all 256 DL values x 2 prior AL. INT 21h/01: 20 stdin shapes (closed, empty line, lines with white space at either end / of white space only, empty line(s) followed by a line, short, exactly capacity, longer, no trailing newline, two lines, 300 characters, UTF-8) x 2 prior AL, followed by a second read and an echo. INT 21h/0Ah: 5 buffer placements (low, offset wrap at 16 bits, crossing 2^20, ending exactly at 0xFFFFF, header split by the wrap) x capacities {0,1,2,5,16,255} (thorough: all 256) x the stdin shapes, the buffer surrounded by 0xEE markers; plus a line of 1-, 2-, 3- and 4-byte characters cut by every capacity 0..length+1 (the cut falls inside a character). INT 10h/0Ah: AL x CX lattice (thorough: all 256 AL x 15 CX up to 65535). INT 10h/13h: 6 (ES,BP) placements incl. text whose high bytes form well-formed UTF-8, strings crossing 2^20 and BP+i wrapping at 16 bits x DL x CX (thorough: all 256 DL x 12 CX up to 65535). Every AH value 0..255 other than the supported ones for both interrupts, at the first / a middle / the last line. All 25 ordered pairs of services x 5 stdin scripts (thorough: all 125 ordered triples x 5 scripts). After each service the program prints all registers, the flags, the marker window around the buffer, the first 48 and the last 48 bytes of memory; service output is matched byte for byte and every printed field against the reference state. Service output followed directly by whatever ends the run (divide error, unsupported AH of either interrupt, hlt, the end of the program, quit / end of input at a breakpoint prompt, a reading service at end of input), 3 writing services x 8 endings x with / without an earlier print statement: what the service wrote must precede the ending's message. Long input: 130 lines of 100 characters (13 KB, more than any buffer holds) read in a loop by INT 21h/01 and by INT 21h/0Ah, every line echoed. Every conforming run of INT 21h/01, of the service pairs and of the long-input programs is repeated with the same standard input delivered in pieces (2 bytes every 3 ms; 997 bytes every 2 ms for the long input) and must produce the same output byte for byte. Every distinct program that reads input also runs once with a standard input on which every read fails and must end normally".into();
+    cov.bounds = json!({"groups": groups.iter().map(|(n, k)| json!({"group": n, "runs": k})).collect::<Vec<_>>(), "service_output_bytes_matched": out_bytes.load(Ordering::Relaxed), "unsupported_reports_checked": unsup.load(Ordering::Relaxed), "cases_conforming_only_in_dos_encoding": dos_mode_used.load(Ordering::Relaxed), "programs_run_with_unreadable_stdin": unreadable.load(Ordering::Relaxed), "runs_repeated_with_input_delivered_in_pieces": pieces.load(Ordering::Relaxed), "tier": tier.name()});
     cov.assumptions = common_assumptions();
     cov.assumptions.push("characters >= 0x80 may be written as the raw byte or as the UTF-8 encoding of the same code point".into());
     cov.assumptions.push("INT 21h/0Ah: the line terminator is not part of the line; admissible encodings: count = min(length, capacity) with exactly those bytes stored, or the DOS encoding (capacity includes an uncounted carriage return stored after the text); anything else, and any change outside the buffer, is a violation. INT 21h/01h on an empty line returns the newline character, at end of input 0".into());
